@@ -1298,9 +1298,10 @@ pub fn check_rate_trace(i: usize, b: f64, tr: &[TxEvent], c: &mut Counters, viol
             violations.push(Violation::new("C13", "burst-after-step-flush", "C13:strict-bound-exceeded-by-at-most-one-step-credit:app-flush-after-step", msg));
         } else if worst_grid <= 0.5 {
             violations.push(Violation::new("C13", "burst-within-grid", "C13:strict-bound-exceeded-by-at-most-one-step-credit:no-app-flush", msg));
-        } else if worst_grid <= 1.0 {
-            // credit is granted in whole bytes, the fraction is carried to the next step: the
-            // fraction accrued before the interval's first byte (< 1 byte) is granted inside it
+        } else if worst_grid <= 1.5 {
+            // credit is kept in whole bytes: the fraction carried from before the interval's first
+            // byte (< 1 byte) is granted inside it, and the burst cap rate x RTT is rounded to the
+            // nearest byte (<= 0.5 byte above it)
             violations.push(Violation::new("C13", "burst-within-grid-plus-carry", "C13:strict-bound-exceeded-by-at-most-one-step-credit:plus-sub-byte-credit-carry", msg));
         } else {
             violations.push(Violation::new("C13", "rate-exceeded", "C13:rate-exceeded-beyond-step-credit", msg));
